@@ -95,6 +95,9 @@ pub enum Close {
     DropHalf,
     /// `forget` the write half; the stream is closed by dropping it once the reader saw EOF
     AfterEof,
+    /// one-shot server style: read exactly what the peer is going to send, only then write, and drop the
+    /// whole stream right after the last write was accepted — without waiting for the peer's end-of-file
+    DropAll,
 }
 
 #[derive(Clone, Debug, PartialEq, Eq, Serialize, Deserialize)]
@@ -191,6 +194,9 @@ pub fn workload_ok(s: &[Side; 2]) -> bool {
     if s[0].wait_first && s[1].wait_first {
         return false;
     }
+    if s[0].close == Close::DropAll && s[1].close == Close::DropAll {
+        return false;
+    }
     // a reader that waits for its own writer must have a peer that keeps reading, and a writer
     // that does not in turn wait for that reader
     if s[0].read_after_write && s[1].read_after_write {
@@ -206,6 +212,10 @@ pub fn workload_ok(s: &[Side; 2]) -> bool {
             return false;
         }
         if s[x].reads.is_empty() || s[x].reads.iter().any(|r| *r == 0) {
+            return false;
+        }
+        // x answers only after it has read everything p sends: p must send it without waiting for x
+        if s[x].close == Close::DropAll && (s[x].read_after_write || s[p].wait_first && s[p].total() > 0) {
             return false;
         }
     }
@@ -337,6 +347,8 @@ pub struct Shared {
     pub first_byte: [Gate; 2],
     /// opened when the writer of the side has returned (finished or failed)
     pub writer_done: [Gate; 2],
+    /// opened when the reader of a `Close::DropAll` side has consumed everything the peer sends (or failed)
+    pub consumed: [Gate; 2],
     /// the wire has handed a FIN to this side
     pub fin_delivered: [std::cell::Cell<bool>; 2],
     pub round: std::cell::Cell<u32>,
@@ -609,7 +621,12 @@ pub(super) async fn reader(sh: Rc<Shared>, side: usize, mut r: OwnedReadHalf) {
     }
     sh.on_first_read(side);
     let mut i = 0usize;
+    let peer_total = sh.sides[1 - side].total();
     loop {
+        if prog.close == Close::DropAll && sh.obs.borrow().read[side] >= peer_total {
+            sh.obs.borrow_mut().probes.inc("reader_stopped_without_waiting_for_eof");
+            break;
+        }
         let sz = prog.reads[i % prog.reads.len()] as usize;
         i += 1;
         if prog.peek > 0 && i % prog.peek as usize == 0 {
@@ -642,6 +659,7 @@ pub(super) async fn reader(sh: Rc<Shared>, side: usize, mut r: OwnedReadHalf) {
         sh.mark_closing(side, "drop-stream");
     }
     drop(r);
+    sh.consumed[side].open();
 }
 
 pub(super) async fn writer(sh: Rc<Shared>, side: usize, w: OwnedWriteHalf) {
@@ -653,6 +671,9 @@ async fn writer_body(sh: &Rc<Shared>, side: usize, mut w: OwnedWriteHalf) {
     let prog = sh.sides[side].clone();
     if prog.wait_first {
         sh.first_byte[side].wait().await;
+    }
+    if prog.close == Close::DropAll {
+        sh.consumed[side].wait().await;
     }
     let mut off = 0u64;
     for chunk in prog.writes.iter().copied() {
@@ -724,6 +745,11 @@ async fn writer_body(sh: &Rc<Shared>, side: usize, mut w: OwnedWriteHalf) {
         Close::AfterEof => {
             // the stream closes when the reader drops its half (or now, if the reader is gone already)
             sh.mark_closing(side, "drop-stream");
+            w.forget();
+        }
+        Close::DropAll => {
+            // the read half is gone already: this closes the stream with the answer still on its way
+            sh.mark_closing(side, "drop-stream-at-once");
             w.forget();
         }
     }
@@ -869,6 +895,7 @@ pub fn run_conn(sc: &Scenario, keep: bool) -> Outcome {
         sides: sc.sides.clone(),
         first_byte: [Gate::default(), Gate::default()],
         writer_done: [Gate::default(), Gate::default()],
+        consumed: [Gate::default(), Gate::default()],
         fin_delivered: Default::default(),
         round: Default::default(),
         sleepers: Default::default(),
